@@ -650,6 +650,11 @@ func (e *Engine) applyContract(st *State, c *Contract, fn *ssa.Function, sig *ty
 			// proved by the sibling contract of this function that does not forget the fact (see cmdCheck)
 			continue
 		}
+		if strings.HasPrefix(r.Label, "env-") {
+			// a stated assumption of the callee about its environment (configuration validity, initialised
+			// collaborators): recorded as an assumption of the callee's proof, not an obligation of callers
+			continue
+		}
 		if strings.HasPrefix(r.Label, "pkginit-") {
 			// established once by the callee's package initializer, not by callers (see Run)
 			continue
